@@ -65,10 +65,15 @@ CaseStart ==
         THEN \* the harness withheld the bytes of a stream > 4 x raw PCM + 64 KiB: C09 judges the
              \* size, every other property skips the case (it cannot afford to decode it)
              /\ pos' = -2
-             /\ bad' = IF \E i \in 1..Len(cs.props) : cs.props[i] = "C09"
+             /\ bad' = (IF \E i \in 1..Len(cs.props) : cs.props[i] = "C09"
                        THEN {Tag("C09", "stream of " \o ToString(cs.nbytes) \o " bytes for " \o ToString(cs.rawbytes)
                                         \o " bytes of raw PCM (" \o ToString(NBlk(cs)) \o " frames)")}
-                       ELSE {}
+                       ELSE {}) \cup
+                        \* the size the stream reports can still be compared with the size that was written
+                        (IF (\E i \in 1..Len(cs.props) : cs.props[i] = "C08") /\ cs.count_bytes >= 0 /\
+                            (cs.count_bytes # cs.nbytes \/ cs.count_rem # 0)
+                         THEN {Tag("C08", "stream count_bits is " \o ToString(cs.count_bytes) \o " bytes but " \o ToString(cs.nbytes) \o " bytes were written")}
+                         ELSE {})
         ELSE IF cs.outcome # "ok"
         THEN /\ pos' = -1
              /\ bad' = {Tag("ALL", "encoding a valid input failed: " \o cs.outcome \o " " \o cs.detail)}
